@@ -883,7 +883,7 @@ impl<'r> ReplacementArray {
                     let optional_word_start_slice = &optional[start_index + OPTIONAL_INDICATOR_LEN..];
                     // now find the end
                     match optional_word_start_slice.find(OPTIONAL_INDICATOR) {
-                        None => panic!("Internal error: missing end optional char -- text handling is corrupted!"),
+                        None => return None,     // a lone indicator (it can only come from the input's own text) -- nothing to remove
                         Some(end_index) => {
                             let optional_word = &optional_word_start_slice[..end_index];
                             // debug!("check if '{}' is repetitive",  optional_word);
